@@ -306,7 +306,7 @@ def check_direct_applies(ctx, replay, out):
     else:
         bad = [k for k in need if not guards.get(k)] + [k for k in sorted(d) if k != "topTextblock" and not d[k]] + \
             [k for k in ("direct", "sliceValid", "sliceNorm", "sliceHighClosed") if not h.get(k)]
-        ctx.count("replace_applies_direct: hypotheses fail (%s)" % ",".join(bad)[:60])
+        ctx.count("replace_applies_direct: hypotheses fail (%s)%s" % (",".join(bad)[:60], " [inline leaves]" if h.get("inlineLeaves") else ""))
 
 
 def tie_join_counterexample(ctx, reqs, metas):
